@@ -1016,6 +1016,7 @@ def check(vlib, ctx, which, cases):
     kinds = {}
     ops = {}
     mirror_bad = 0
+    cmp_invalid = {"tip_wins": 0, "zero_via_no_keystone_shortcut": 0, "skipped": 0}
     for p, g in cases:
         meta = g.meta
         hist[meta["mutation"]] = hist.get(meta["mutation"], 0) + 1
@@ -1027,6 +1028,16 @@ def check(vlib, ctx, which, cases):
                     r = ires.get("%s.%d" % (p, i + 1), "")
                     k = r.split()[2] if r.startswith("false") and len(r.split()) > 2 else r.split(" ")[0]
                     kinds[k] = kinds.get(k, 0) + 1
+        for i, l in enumerate(g.lines):
+            t = g.tags.get(i)
+            if t and t[0] == "cmpref":
+                r = ires.get("%s.%d" % (p, i + 1), "")
+                if r.startswith("1"):
+                    cmp_invalid["tip_wins"] += 1
+                elif r == "0 nk":
+                    cmp_invalid["zero_via_no_keystone_shortcut"] += 1
+                elif r.startswith("SKIP"):
+                    cmp_invalid["skipped"] += 1
         f04, f19, mirror = evaluate(g, ires, p)
         f19 += eval_mempool_tags(g, ires, p)
         died = [a for a in aborted if a[0] == p]
@@ -1061,7 +1072,22 @@ def check(vlib, ctx, which, cases):
     ctx.cov["traces_validated_against_impl"] = ctx.cov.get("traces_validated_against_impl", 0) + ncmp - nbad
     ctx.cov["distinct_nontrivial"] = len({(g.meta["mutation"], g.meta.get("depth"), g.meta.get("desc"), len(g.lines)) for _, g in cases})
     ctx.cov["rules"] = {"histories_per_rule": hist, "verdict_kinds": kinds, "op_histogram": ops,
-                        "aborted_histories": [a[0] for a in aborted], "oracle_lines": len(orc)}
+                        "aborted_histories": [a[0] for a in aborted], "oracle_lines": len(orc),
+                        # documented deviation of the observation: the property text says comparePopScore > 0 for an
+                        # invalid candidate; the comparator answers 0 when neither chain crosses a keystone boundary,
+                        # BEFORE looking at the candidate (which is then not activated)
+                        "comparePopScore_on_planted_invalid_candidate": cmp_invalid}
+    # the last thorough run (kept as evidence/<pid>.thorough.json) is summarised in every evidence file
+    try:
+        t = json.load(open(os.path.join(vlib.VERIF, "evidence", which + ".thorough.json")))
+        tc = t["coverage"]
+        ctx.cov["last_thorough_run"] = {
+            "seed": t["seed"], "wall_s": t["wall_s"], "violations": t["violations"], "histories": tc["evaluations"],
+            "model_vs_impl_comparisons": tc["disagreements_checked"], "agreeing": tc["traces_validated_against_impl"],
+            "histories_per_rule": tc["rules"]["histories_per_rule"], "verdict_kinds": tc["rules"]["verdict_kinds"],
+            "comparePopScore_on_planted_invalid_candidate": tc["rules"].get("comparePopScore_on_planted_invalid_candidate")}
+    except Exception:
+        pass
     ctx.cov["trusted_base"] = [
         "harness/h_rules.cpp: independent audit of the active chain (own keystone arithmetic, own ancestry walk on the "
         "registry, BTC references tracked per containing VBK block), error-kind mapping of ValidationState paths",
